@@ -35,6 +35,12 @@ func runGrefcount(c *Ctx) {
 		if v := paramWhere(d, func(t types.Type) bool { return isBasic(t, types.IsInteger) }); v != nil {
 			gen = c.Role(v)
 		}
+		type resPath struct {
+			lits   []*r2Lit
+			stored bool
+			p      *core.Path
+		}
+		var resPaths []resPath
 		c.Walk("R7", &core.Config{Follow: pkgFollow}, core.Entry{Decl: d}, func(p *core.Path) {
 			g := prepare(c, p)
 			var relVar *types.Var
@@ -72,11 +78,23 @@ func runGrefcount(c *Ctx) {
 				}
 			}
 			if callIdx >= 0 && p.End == core.EndReturn {
+				resPaths = append(resPaths, resPath{g.litsBefore(len(p.Events), false), stored, p})
 				a.note("R7", name+"/release-func-fate", p.Events[callIdx].Pos, !(stored || calledOrNil),
 					"on every path the resolver's release function is stored, called, or shown nil",
 					"a path returns after the resolver call without storing the returned release function, calling it or showing it nil: the value is never released", p)
 			}
 		})
+		// the result is stored exactly when the generation is unchanged: a path that returns after the
+		// resolver call without storing must have found the generation changed
+		for _, rp := range resPaths {
+			if rp.stored {
+				continue
+			}
+			ok, cx := implies(rp.lits, fnot(eq(gen, nonce)))
+			a.note("R7", name+"/store-result/complete", d.Decl.Pos(), !ok,
+				"a resolver result is dropped only when the generation changed",
+				c.Pretty(sprintf("resolve returns without storing the resolver's result on a path that does not exclude an unchanged generation (conditions: %s; counterexample %s): a result the container still waits for is thrown away and nothing is delivered", litsString(rp.lits), cx)), rp.p)
+		}
 		a.expect("R7", name+"/store-release-func", 1, "r.valueRel = valRel in resolve")
 		a.expect("R7", name+"/release-func-fate", 1, "the resolver call in resolve")
 		// released(): restart exactly when the generation is unchanged
@@ -341,6 +359,7 @@ func runGrefcount(c *Ctx) {
 		})
 	}
 	releasedOnlyViaOnce(c, a)
+	shutdownCancels(c, a, pkgFollow)
 	// --- Access
 	if d := c.declByName("R12", "refcount", "RefCount", "Access"); d != nil {
 		name := core.FuncName(d.Obj)
@@ -530,4 +549,41 @@ func releasedOnlyViaOnce(c *Ctx, a *agg) {
 		return true
 	})
 	a.expect("R12", name+"/released-once-from-goroutine", 1, "the call of released in WaitWithReleased")
+}
+
+// shutdownCancels (C08/C09): every path through shutdown() cancels the resolve context and releases
+// the value, or shows the respective field nil.
+func shutdownCancels(c *Ctx, a *agg, follow func(*types.Func) bool) {
+	d := c.declByName("R4", "refcount", "RefCount", "shutdown")
+	if d == nil {
+		return
+	}
+	name := core.FuncName(d.Obj)
+	c.Walk("R4", &core.Config{Follow: follow}, core.Entry{Decl: d}, func(p *core.Path) {
+		if p.End != core.EndReturn {
+			return
+		}
+		g := prepare(c, p)
+		cancelled, released := false, false
+		for _, ev := range p.Events {
+			if callsField(ev, "refcount.RefCount.resolveCtxCancel") {
+				cancelled = true
+			}
+			if callsField(ev, "refcount.RefCount.valueRel") {
+				released = true
+			}
+		}
+		lits := g.litsBefore(len(p.Events), false)
+		if !cancelled {
+			cancelled, _ = implies(lits, eq("nil", "refcount.RefCount.resolveCtxCancel"))
+		}
+		if !released {
+			released, _ = implies(lits, eq("nil", "refcount.RefCount.valueRel"))
+		}
+		a.note("R4", name+"/cancels-resolver", d.Decl.Pos(), !cancelled, "every path through shutdown cancels the resolve context or shows there is none",
+			"a path through shutdown leaves a resolve context that may be live uncancelled: an in-flight resolver is not told to stop, and the next resolver waits for it forever", p)
+		a.note("R7", name+"/releases-value", d.Decl.Pos(), !released, "every path through shutdown calls the value's release function or shows there is none",
+			"a path through shutdown keeps a release function uncalled although the value is being dropped", p)
+	})
+	a.expect("R4", name+"/cancels-resolver", 1, "paths of shutdown")
 }
